@@ -368,6 +368,12 @@ def run(ctx, col: Collector):
                   'TableGroupBlueprint.build does not resolve its items with self.parser.locate_table(schema, name)', node=gb.node, file=gb.file)
     guarded(col, 'C05-resolve', 'locate-calls', locate_calls)
 
+    def endpoint_names():
+        # the endpoint columns are the columns addressed: the builder must not make several names out of one quoted name (rule shared with C08-precondition / C01-resolve)
+        from .c08 import split_of_quoted_name
+        split_of_quoted_name(ctx, col, ctx.grammar, 'C05-resolve', 'reference-endpoint')
+    guarded(col, 'C05-resolve', 'endpoint-names', endpoint_names)
+
     # ---------------------------------------------------------------- C05-schema (default-schema constant)
     def default_schema():
         sites: List[Tuple[str, object, ast.AST, str]] = []
@@ -495,11 +501,55 @@ def run(ctx, col: Collector):
                 elif isinstance(c.ops[0], ast.In) and norm(l_) in raw and isinstance(r_, (ast.Tuple, ast.List, ast.Set)) \
                         and any(isinstance(x, ast.Name) and x.id in enum_vars for x in ast.walk(r_)):
                     raw_cmp.append((c, list(r_.elts)))
-        if raw_cmp:
-            c0, keys_ = raw_cmp[0]
-            ev_ = next(x.id for k in keys_ for x in ast.walk(k) if isinstance(x, ast.Name) and x.id in enum_vars)
-            pub = [spelling(k, ev_, True) for k in keys_]
-            oth = [spelling(k, ev_, False) for k in keys_]
+        # ... or looked up in an index filled from the enums: `D[K] = e` / `D.setdefault(K, e)` in a loop over the enums, then `D.get(<type text>)` / `D[<type text>]`
+        index_keys = None
+        if not raw_cmp:
+            for c in ast.walk(cb.node):
+                dname = None
+                if isinstance(c, ast.Call) and isinstance(c.func, ast.Attribute) and c.func.attr == 'get' and isinstance(c.func.value, ast.Name) and c.args and norm(c.args[0]) in raw:
+                    dname = c.func.value.id
+                elif isinstance(c, ast.Subscript) and isinstance(c.ctx, ast.Load) and isinstance(c.value, ast.Name) and norm(c.slice) in raw:
+                    dname = c.value.id
+                if dname is None:
+                    continue
+                found = []
+                for lp in [n for n in ast.walk(cb.node) if isinstance(n, ast.For) and norm(n.iter).endswith('.enums') and isinstance(n.target, ast.Name)]:
+                    evn = lp.target.id
+
+                    def scan(body, guard):
+                        for st_ in body:
+                            if isinstance(st_, ast.If):
+                                t_ = term(st_.test, True)
+                                g_ = None
+                                if t_[0] == 'eq' and f'{evn}.schema' in t_[1:] and any(str(x).startswith(("'", '"')) for x in t_[1:]):
+                                    g_ = True
+                                elif t_[0] == 'not' and isinstance(t_[1], tuple) and t_[1][0] == 'eq' and f'{evn}.schema' in t_[1][1:]:
+                                    g_ = False
+                                scan(st_.body, g_ if guard is None else guard)
+                                scan(st_.orelse, (not g_) if (g_ is not None and guard is None) else guard)
+                            elif isinstance(st_, ast.Assign) and len(st_.targets) == 1 and isinstance(st_.targets[0], ast.Subscript) \
+                                    and isinstance(st_.targets[0].value, ast.Name) and st_.targets[0].value.id == dname and norm(st_.value) == evn:
+                                found.append((st_.targets[0].slice, guard))
+                            elif isinstance(st_, ast.Expr) and isinstance(st_.value, ast.Call) and isinstance(st_.value.func, ast.Attribute) and st_.value.func.attr == 'setdefault' \
+                                    and isinstance(st_.value.func.value, ast.Name) and st_.value.func.value.id == dname and len(st_.value.args) == 2 \
+                                    and norm(st_.value.args[1]) == evn:
+                                found.append((st_.value.args[0], guard))
+                    scan(lp.body, None)
+                    if found:
+                        index_keys = (c, evn, found)
+                        break
+                if index_keys:
+                    break
+        if raw_cmp or index_keys:
+            if raw_cmp:
+                c0, keys_ = raw_cmp[0]
+                ev_ = next(x.id for k in keys_ for x in ast.walk(k) if isinstance(x, ast.Name) and x.id in enum_vars)
+                pub = [spelling(k, ev_, True) for k in keys_]
+                oth = [spelling(k, ev_, False) for k in keys_]
+            else:
+                c0, ev_, found = index_keys
+                pub = [spelling(k, ev_, True) for k, g_ in found if g_ in (None, True)]
+                oth = [spelling(k, ev_, False) for k, g_ in found if g_ in (None, False)]
             cons_k = 'ColumnBlueprint.build:type-spellings'
             if None in pub or None in oth:
                 col.unk('C05-enum', cons_k, f'the type text is compared as written with `{norm(c0)[:80]}`; cannot read which spellings that accepts', node=c0, file=cb.file)
